@@ -14,6 +14,7 @@ import (
 	"time"
 
 	"github.com/ChainSafe/sygma-relayer/chains/evm/calls/events"
+	"github.com/ChainSafe/sygma-relayer/chains/evm/listener/depositHandlers"
 	"github.com/ChainSafe/sygma-relayer/chains/evm/listener/eventHandlers"
 	subListenerR "github.com/ChainSafe/sygma-relayer/chains/substrate/listener"
 	"github.com/ChainSafe/sygma-relayer/relayer/retry"
@@ -153,7 +154,74 @@ func (l c19RetryListener) FetchRetryDepositEvents(ev events.RetryV1Event, a comm
 	return l.deposits, nil
 }
 
+// ---- one relayer's deposit-handler objects over a sequence of ranges, with transient outages of the on-chain lookup
+type c19OutageMatcher struct{ down *bool }
+
+func (m c19OutageMatcher) GetHandlerAddressForResourceID(rid [32]byte) (common.Address, error) {
+	if *m.down {
+		return common.Address{}, errRPC
+	}
+	return common.Address{rid[0]}, nil
+}
+
+type c19SeqListener struct {
+	c05EvmListener
+	ds []*events.Deposit
+}
+
+func (l *c19SeqListener) FetchDeposits(ctx context.Context, a common.Address, s, e *big.Int) ([]*events.Deposit, error) {
+	return l.ds, nil
+}
+
 func init() {
+	// evmoutage <domain> <ranges>   ranges '/'-separated `<o|n>:<deposits>`; o = the on-chain handler lookup is down while
+	//   this range is processed (a transient RPC outage), n = it works; deposits ','-separated `<dest>[b]` (b: second resource)
+	//   => per range the messages resolved (`dest=nonce.msgid,…;…`), '/'-separated. ONE DepositEventHandler + ONE real
+	//   ETHDepositHandler serve the whole sequence; range i is [10i, 10i+4]. Every range without an outage is also handled
+	//   by a fresh pair (a relayer that never saw the outage) and a difference is printed as `<long-lived>!<fresh>`.
+	ops["C19.evmoutage"] = func(a []string) string {
+		dom := uint8(u64(a[0]))
+		mk := func() (*eventHandlers.DepositEventHandler, *c19SeqListener, *bool) {
+			down := false
+			dh := depositHandlers.NewETHDepositHandler(c19OutageMatcher{&down})
+			dh.RegisterDepositHandler(common.Address{0xa}.Hex(), c19DepositHandler{})
+			dh.RegisterDepositHandler(common.Address{0xb}.Hex(), c19DepositHandler{})
+			l := &c19SeqListener{}
+			return eventHandlers.NewDepositEventHandler(l, dh, common.Address{}, dom, make(chan []*message.Message, 1)), l, &down
+		}
+		call := func(eh *eventHandlers.DepositEventHandler, l *c19SeqListener, i int, spec string) string {
+			l.ds = nil
+			for j, d := range items(spec, ",") {
+				rid := [32]byte{0xa}
+				if strings.HasSuffix(d, "b") {
+					rid = [32]byte{0xb}
+					d = strings.TrimSuffix(d, "b")
+				}
+				l.ds = append(l.ds, &events.Deposit{DestinationDomainID: uint8(u64(d)), DepositNonce: uint64(j), ResourceID: rid})
+			}
+			dd, err := eh.ProcessDeposits(big.NewInt(int64(10*i)), big.NewInt(int64(10*i+4)))
+			if err != nil {
+				return "err"
+			}
+			return renderEvmDeposits(dd)
+		}
+		eh, l, down := mk()
+		out := []string{}
+		for i, r := range strings.Split(a[1], "/") {
+			f := strings.SplitN(r, ":", 2)
+			*down = f[0] == "o"
+			res := call(eh, l, i, f[1])
+			*down = false
+			if f[0] != "o" {
+				feh, fl, _ := mk()
+				if fr := call(feh, fl, i, f[1]); fr != res {
+					res += "!" + fr
+				}
+			}
+			out = append(out, res)
+		}
+		return strings.Join(out, "/")
+	}
 	// subids <domain> <start> <end> <deposits>  =>  dest=nonce.msgid,…;…
 	ops["C19.subids"] = func(a []string) string {
 		evs := c19SubEvents(a[3])
